@@ -349,8 +349,16 @@ func c11OnlyPlusAdded(r *an.Run) {
 		for _, b := range g.Blocks {
 			if iff, ok := b.Instrs[len(b.Instrs)-1].(*ssa.If); ok {
 				inner, _ := an.StripNot(iff.Cond)
-				if strings.HasSuffix(an.Path(inner), ".Unnamed") {
-					unn = true
+				// a test of what the import matcher recorded about the name (a flag, or a comparison of an
+				// enum field with a constant)
+				ops := []ssa.Value{inner}
+				if cmp, ok := inner.(*ssa.BinOp); ok {
+					ops = []ssa.Value{cmp.X, cmp.Y}
+				}
+				for _, o := range ops {
+					if p := an.Path(o); strings.HasSuffix(p, ".Unnamed") || strings.HasPrefix(p, "mdata.") {
+						unn = true
+					}
 				}
 			}
 		}
